@@ -65,6 +65,12 @@ package server
 //@ func (*fsm).isDominant
 //@   claims at-return
 //@   at-return requires ret0 <==> (localID > remoteID || (localID == remoteID && myAS > getASN(open)))
+// from C07 "every ... unexpected ... message ... yields the NOTIFICATION code/subcode and next state the RFCs prescribe": in
+// OpenConfirm anything but a KEEPALIVE (and but a NOTIFICATION, which is never answered) is an FSM error with the RFC
+// 6608 OpenConfirm subcode - the connection is not just closed
+//@ func (*fsmHandler).openconfirm
+//@   claims at-call
+//@   at-call ^bgp.NewBGPNotificationMessage(bgp.BGP_ERROR_FSM_ERROR requires arg1 == bgp.BGP_ERROR_SUB_RECEIVE_UNEXPECTED_MESSAGE_IN_OPENCONFIRM_STATE && m.Header.Type != bgp.BGP_MSG_KEEPALIVE && m.Header.Type != bgp.BGP_MSG_NOTIFICATION
 //@ func (*fsmHandler).established$2
 //@   claims at-call
 //@   at-call bgp.NewBGPNotificationMessage( requires len(arg2) == len(m.Body.(*bgp.BGPNotification).Data) + 2 && arg2[0] == m.Body.(*bgp.BGPNotification).ErrorCode && arg2[1] == m.Body.(*bgp.BGPNotification).ErrorSubcode
